@@ -15,7 +15,7 @@ META = dict(
          'radiative equilibrium (Tr = Tm) with equal equilibrium total energy flux; parameter sets for which the constructor raises are counted as '
          '"no solution produced" (the property quantifies over Mach numbers for which a solution is produced) except the documented default set; '
          'non-trivial = non-default gamma/Cv/Tref (O1) or M0 != default (O2); distinct = case hash',
-    assumptions=['S_n transport solver: only M0 <= 2 (3 min per construction at M0 = 2, more than 10 min at M0 = 3) and only in the thorough tier; its interior momentum balance is not observable (variable Eddington factor not public)', 'the public attribute Fr is the lab-frame radiation flux divided by the upstream sound speed (it is scaled with C0 = c/c_s, not c): the energy balance uses c_s * Fr',
+    assumptions=['S_n transport solver: only M0 < 2 (3 to 30 min per construction at M0 = 2, more than 10 min at M0 = 3) and only in the thorough tier; its interior momentum balance is not observable (variable Eddington factor not public)', 'the public attribute Fr is the lab-frame radiation flux divided by the upstream sound speed (it is scaled with C0 = c/c_s, not c): the energy balance uses c_s * Fr',
                  'a_r = 137.20172 erg cm^-3 eV^-4 as in radshock.py'])
 
 AR = 137.20172
@@ -164,7 +164,10 @@ OBLIGATIONS = [
     Obligation('ED-fluxes', rad_case('ED'), check_fluxes, quick=8, thorough=100, min_per_shard=1),
     Obligation('nED-fluxes', rad_case('nED'), check_fluxes, quick=24, thorough=500, min_per_shard=1),
     Obligation('ie-fluxes', rad_case('ie'), check_fluxes, quick=16, thorough=300, min_per_shard=1),
-    Obligation('Sn-translation-and-fluxes', rad_case('Sn'), check_fluxes, quick=0, thorough=8, min_per_shard=1),
+    # (one S_n construction takes 12 s to 40 s for most parameter sets but does not end within an hour for some (e.g. M0 = 1.4 with Cv doubled):
+    #  the shard budget turns those into INCONCLUSIVE instead of stalling the run)
+    Obligation('Sn-translation-and-fluxes', rad_case('Sn'), check_fluxes, quick=0, thorough=8, min_per_shard=1, budget_s={'quick': 240, 'thorough': 420}),
 ]
 for _o in OBLIGATIONS:
-    _o.cost = 50.0 if _o.name.startswith('ED') or _o.name.startswith('Sn') else 10.0
+    # (Sn started first: its shards are abandoned by the watchdog after 2 x 420 s + 120 s)
+    _o.cost = 1000.0 if _o.name.startswith('Sn') else (50.0 if _o.name.startswith('ED') else 10.0)
